@@ -21,7 +21,7 @@ func init() {
 	core.Register(&core.Check{
 		ID:    "C05",
 		Level: "exploration",
-		Rule: "a valid generated base program (effects at the very start and in every block, functions, an event handler, graphics calls) plus exactly one rule-breaking edit from a catalogue of 24 edit kinds (undeclared/unused variable, redeclaration incl. parameters, loop variables, built-in globals and function names, type mismatches, argument counts, missing return, unreachable code, break outside a loop, return value in a procedure/handler/top level, bare return in a function, unknown function, stray tokens after statements and after every kind of end, two statements on one line, non-bool condition), applied at every line where the rule applies; each case runs in-process through Evaluator.Run with the recording platform and, sampled, through the real `evy run` (with and without --svg-out). distinct = distinct (edit kind, line kind, error message shape)",
+		Rule: "a valid generated base program (effects at the very start and in every block, functions, an event handler, graphics calls) plus exactly one rule-breaking edit from a catalogue of 25 edit kinds (undeclared/unused variable, redeclaration incl. parameters, loop variables, built-in globals and function names, type mismatches, argument counts, missing return at the end and in a single branch of an if/else-if/else chain, unreachable code, break outside a loop, return value in a procedure/handler/top level, bare return in a function, unknown function, stray tokens after statements and after every kind of end, two statements on one line, non-bool condition), applied at every line where the rule applies; each case runs in-process through Evaluator.Run with the recording platform and, sampled, through the real `evy run` (with and without --svg-out). distinct = distinct (edit kind, line kind, error message shape)",
 		Assumptions: []string{"base programs are produced by the C10 generator (accepted by construction; a rejected base is reported as a harness failure)"},
 		NeedsEvy:    true,
 		NumCases: func(tier string) int {
@@ -204,6 +204,12 @@ func c05Edits() []c05Edit {
 			}
 			return replaceLine(ls, i, ls[i].indent+"print \"no return\""), true
 		}},
+		{"missing-return-in-branch", func(ls []c05Line, i int) (string, bool) {
+			if ls[i].kind != "return" || !strings.Contains(ls[i].text, "return  ") {
+				return "", false
+			}
+			return replaceLine(ls, i, ls[i].indent+"print \"no return in this branch\""), true
+		}},
 		{"unreachable-code", func(ls []c05Line, i int) (string, bool) {
 			if ls[i].kind != "return" && ls[i].kind != "break" {
 				return "", false
@@ -283,7 +289,11 @@ func c05Base(c *core.Ctx) string {
 	// graphics at the very start and an event handler: drawing, sleeping, reading must not happen either
 	head := "move 10 10\ncircle 5\nsleep 0.001\nline0 := read\nprint \"first effect\" line0\n"
 	tail := "on key k:string\n    print \"key\" k\n    circle 1\nend\n"
-	return head + base + tail
+	// typed functions whose body ends in a branch chain: every branch must return
+	n := c.Rng.Intn(4)
+	chain, _ := returnPathsSource(c.Rng, n, nil, []string{"num", "string"}[c.Rng.Intn(2)])
+	chain = strings.Replace(chain, "return ", "return  ", -1) // marks the branch returns for the edit catalogue
+	return head + base + chain + tail
 }
 
 func c05Run(c *core.Ctx, i int) {
